@@ -33,7 +33,7 @@ const DEV_NODE: u64 = 200;
 const EPOCH_KEY: [u8; 16] = [0x5a; 16];
 
 /// Fabric + one key set (id 1) + groups 1 and 2 mapped to it.  Returns (operational group key, group session id).
-fn provision(m: &Matter<'_>) -> (CanonAeadKey, u16) {
+pub fn provision(m: &Matter<'_>) -> (CanonAeadKey, u16) {
     let crypto = test_only_crypto();
     let mut rcac_buf = [0u8; MAX_CERT_TLV_AND_ASN1_LEN];
     let mut rcac_gen = RcacGenerator::new(&mut rcac_buf);
